@@ -26,6 +26,9 @@ class HarnessError(Exception):
     pass
 
 
+ABORTED = [None]   # set by the wall-clock guard: every further check fails fast with a HarnessError
+
+
 class Outcome:
     """Result of calling into the code under test."""
     __slots__ = ("ok", "value", "exc", "where")
@@ -170,6 +173,8 @@ class Ctx:
     def check(self, case, fn=None):
         """Run check_case on one case; returns the set of violation kinds it produced."""
         fn = fn or self.module.check_case
+        if ABORTED[0]:
+            raise HarnessError(ABORTED[0])
         self._current = case
         self._hit = set()
         try:
